@@ -677,7 +677,7 @@ def badtree_cases(rng, n_cases):
 
 def cases(rng, tier):
     q = tier == "quick"
-    yield from history_cases(rng, 150 if q else 2500)
+    yield from history_cases(rng, 120 if q else 2500)
     yield from spell_cases(rng, 60 if q else 1000)
     yield from tree_cases(rng, 60 if q else 1000)
     yield from dist_cases(rng, 80 if q else 2000)
@@ -685,7 +685,7 @@ def cases(rng, tier):
     yield from mixed_cases(rng, 150 if q else 2500)
     yield from gapchar_cases(rng, 120 if q else 2000)
     yield from big_cases(rng, 120 if q else 2000)
-    yield from trace_cases(rng, 2000 if q else 30000)
+    yield from trace_cases(rng, 1600 if q else 30000)
     yield from string_cases(rng, 100 if q else 1500)
     yield from cigar_cases(rng, 150 if q else 2500)
     yield from malformed_cases(rng, 120 if q else 2000)
